@@ -129,14 +129,14 @@ func (ck *checker) familyCLI() {
 }
 
 // cliArgs maps a target to the CLI input and flags.
-func cliArgs(dir string, t Target) (input string, flags []string) {
+func cliArgs(s Spec, dir string, t Target) (input string, flags []string) {
 	switch t.Kind {
 	case "dir":
-		return filepath.Join(dir, modDir(t.Node)), nil
+		return filepath.Join(dir, t.dirPath(s)), nil
 	case "file":
-		return filepath.Join(dir, filepath.FromSlash(t.filePath())), nil
+		return filepath.Join(dir, filepath.FromSlash(t.filePath(s))), nil
 	case "path":
-		return dir, []string{"--path", filepath.Join(dir, filepath.FromSlash(t.filePath()))}
+		return dir, []string{"--path", filepath.Join(dir, filepath.FromSlash(t.filePath(s)))}
 	}
 	return dir, nil
 }
@@ -185,7 +185,7 @@ func (ck *checker) cliViolate(sig, what string, b *Built, t Target, res bufx.CLI
 
 func (ck *checker) checkCLI(ctx context.Context, cc *cliCounters, b *Built, dir string, t Target) {
 	s := b.Spec
-	input, flags := cliArgs(dir, t)
+	input, flags := cliArgs(s, dir, t)
 	runCLI := func(args ...string) bufx.CLIResult {
 		cc.commands.Add(1)
 		res := bufx.RunCLI(ctx, nil, "", args...)
